@@ -25,10 +25,19 @@ INT_TYPES = {'Byte': (1, True), 'UnsignedByte': (1, False), 'Short': (2, True),
 FW = {'Float': (23, 127, 8), 'Double': (52, 1023, 11)}
 
 
+_FIXED = {}
+
+
 def type_obj(T, ty):
     t = ty[0]
     if t == 'FixedPoint':
-        return T.FixedPoint(getattr(T, ty[1]), ty[2])
+        # the instance is made once and kept (as a packet definition keeps it); other scales over the same integer type
+        # come and go in between: each instance owns its scale
+        key = (id(T), ty[1], ty[2])
+        if key not in _FIXED:
+            _FIXED[key] = T.FixedPoint(getattr(T, ty[1]), ty[2])
+        T.FixedPoint(getattr(T, ty[1]), 12 if ty[2] != 12 else 5)
+        return _FIXED[key]
     if t == 'PrefixedArray':
         return T.PrefixedArray(getattr(T, ty[1]), type_obj(T, ty[2]))
     return getattr(T, t)
